@@ -52,6 +52,16 @@ func (e *Engine) VerifyFunc(key string, small bool) *FnCtx {
 			fc.fact("", "(and (> %s 0) (< %s %s))", n, n, top0)
 		}
 	}
+	// captured variables are different variables: their cells are pairwise distinct
+	var cellRefs []string
+	for _, fv := range fn.FreeVars {
+		if _, ok := fv.Type().Underlying().(*types.Pointer); ok {
+			cellRefs = append(cellRefs, fr.vals[fv])
+		}
+	}
+	if len(cellRefs) > 1 {
+		fc.fact("", "(distinct %s)", strings.Join(cellRefs, " "))
+	}
 	// preconditions
 	envPre := fr.baseEnv(entry)
 	envPre.old = nil
